@@ -18,13 +18,14 @@ TECHNIQUE = ("stateless enumeration of scripts x kernel answers (deviation bound
 RULE = ("every script = [B writes 5 bytes first]? + <= 3 writes by A from {write 0/1/3/5/12 bytes, writeSequence(1,3), "
         "writeSequence(5,0,3)} x pacing {burst, one reactor iteration after each call, run to quiescence after each call} x closing "
         "action {loseConnection, loseWriteConnection (peer closes when it sees EOF), abortConnection} by A or B x protocols "
-        "{plain, IHalfCloseableProtocol on both sides} x reactor {select, poll, epoll, asyncio}; kernel pipe of 4 bytes per "
-        "direction, SEND_LIMIT=4, bufferSize=3; at every send() the kernel accepts all that fits (default) or any smaller "
-        "count >= 1, at every readiness report with two ready descriptors either order (ascending fd default); then the reactor "
-        "is iterated to quiescence and the byte-stream / connectionLost oracle is evaluated. non-trivial = distinct (script, "
-        "answers) in which a send was short or refused with EWOULDBLOCK, or two descriptors were ready in one report; states = "
-        "distinct (script, kernel state, transport buffers, protocol logs) snapshots after a reactor iteration, transitions = "
-        "reactor iterations executed on the real code")
+        "{plain, IHalfCloseableProtocol on both sides} x A's transport {tcp.Server, tcp.Client with a recording connector} (B is a "
+        "tcp.Server) x reactor {select, poll, epoll, asyncio}; kernel pipe of 4 bytes per direction, SEND_LIMIT=4, bufferSize=3; "
+        "kernel answers: at every send() all that fits (default) or any smaller count >= 1; at every readiness report with two "
+        "ready descriptors either order (ascending fd default; select: read list and write list separately); at an abortive "
+        "close how much of the unread tail (and unread FIN) the reset destroys (default none); then the reactor is iterated to "
+        "quiescence and the byte-stream / connectionLost oracle is evaluated. non-trivial = distinct (script, answers) in which a "
+        "send was short or two descriptors were ready in one report; states = distinct (script, kernel state, transport buffers, "
+        "protocol logs) snapshots after a reactor iteration, transitions = reactor iterations executed on the real code")
 BOUNDS = {"quick": "scripts with <= 2 writes: <= 2 deviations (plain/server-server and half-closeable/client-server, no echo), <= 1 deviation "
                    "(all four protocol/transport kinds, with and without echo); scripts with exactly 3 writes (plain/server-server and "
                    "half-closeable/client-server, no echo): <= 1 deviation",
@@ -33,8 +34,10 @@ BOUNDS = {"quick": "scripts with <= 2 writes: <= 2 deviations (plain/server-serv
 ASSUMPTIONS = [
     "trusted base = SimKernel (checks/_c15_kernel.py): Linux tcp_poll readiness masks, one 4-byte pipe per direction standing "
     "for send queue + receive queue, FIN/RST semantics (close with unread data or SO_LINGER 0 resets the peer; data sent to a "
-    "fully closed peer is swallowed and answered by a reset); it only adds behaviours (any partial send >= 1, any ready order) "
-    "and never reports writable-then-0-bytes or readable-then-EWOULDBLOCK",
+    "fully closed peer is swallowed and answered by a reset; shutdown() after both FINs or a reset fails with ENOTCONN; a reset may "
+    "destroy the unread tail and FIN that were still in the aborting side's send queue); it only adds behaviours (any partial "
+    "send >= 1, any ready order) and never reports writable-then-0-bytes or readable-then-EWOULDBLOCK; recv returns all that is "
+    "queued up to the requested size (a shorter read is equivalent to a shorter send by the peer, which is enumerated)",
     "the harness loop is runUntilCurrent(); doIteration(0) (fd-set reactors) / one _run_once of the selector loop (asyncio); "
     "reactors are constructed with a never-ready stand-in for the waker and a constant clock, reactor.run() is never called",
     "when the model kernel generated a reset during an execution (abort, close with unread data, data sent to a closed peer) "
@@ -42,12 +45,13 @@ ASSUMPTIONS = [
     "to connectionLost after abortConnection is not constrained by the statement",
     "a half-closeable protocol calls loseConnection() from readConnectionLost, as IHalfCloseableProtocol requires",
 ]
-MIN = {"quick": {"evaluations": 100, "nontrivial": 10, "outcomes": 5, "states": 100},
-       "thorough": {"evaluations": 100, "nontrivial": 10, "outcomes": 5, "states": 100}}
+MIN = {"quick": {"evaluations": 690000, "nontrivial": 660000, "outcomes": 8, "states": 1300000},
+       "thorough": {"evaluations": 14000000, "nontrivial": 14000000, "outcomes": 8, "states": 7500000}}
 LEVEL_TEXT = ("Every script in the stated alphabet on each of the four reactors' real dispatch code and the real tcp.Connection, "
               "with every single (thorough: pair of) departure(s) of the model kernel from its default answers; relative to the "
               "SimKernel socket model, not to the real Linux TCP stack.")
-LEVEL_NOTE = "decided relative to a model of the kernel socket layer (SimKernel); real-kernel conformance is argued, not enumerated"
+LEVEL_NOTE = ("decided relative to a model of the kernel socket layer (SimKernel); checks/_c15_conformance.py (run by hand, not part of "
+              "the check) replays 14 of the scripts on real loopback sockets under each real reactor and confirms oracle + real-subset-of-model")
 
 CAP = 4
 SEND_LIMIT = 4
